@@ -9,6 +9,10 @@ CHECKS = {
    text="Lean theorems over an exact (Int) layer and a machine (uint64/int64 wrap-explicit) layer of common/time.go: uniqueness of the current round, next = current+1 with its exact time, strict monotonicity, and for every 64-bit round the machine TimeOfRound is the exact time or the documented error value, never negative/wrapped; machine NextRound/CurrentRound equal the exact layer on the whole domain. Tied to the code by regenerated constants and a differential run of the real functions against the model's executable definitions.",
    note="Lean kernel + propext/Classical.choice/Quot.sound; IEEE-754 float division/Log2 of Go modelled as exact integer division / Nat.log2 (checked differentially on the complete power-of-two table and boundary-directed inputs); go2lean; harness.",
    technique="Lean 4 proof (omega/nlinarith, 33-way case split on period bits) + regenerated constants + differential correspondence"),
+ "C15": dict(engine="secrecy", design="§3 C15",
+   text="PARTIAL. Lean theorems about a model in which node state is split public x secret and every response / packet / HTTP body / log-line constructor is typed Pub -> ...: noninterference for every non-signing channel, signing and DKG channels contain the secret only as the key argument of the crypto oracle (and no channel distinguishes two nodes with equal public state when the oracle is key-independent); over facts regenerated from the source: every function that selects a secret-bearing field (Pair.Key, Share.Share, PriShare.V, DistKeyShare, KeyShare, kyber Result.Key, the hex mirrors) is on a 21-entry commented allow-list, no logging/formatting call takes secret material, every key.Save of a secret-serialising value passes secure=true, the list of file-creating calls is the known one, fs.CreateSecureFile+write never has content in a file accessible to group/other (any umask, any prior file state); file modes: full statement proved for the variant with dkg BoltStoreOpenPerm=0600, and for the code as it is (0660) a _partial theorem (all secret files but dkg.db; dkg.db when the umask masks the group bits) plus a _counterexample (dkg.db holds the share and is 0640 under umask 022) which the check replays on the real dkg.NewDKGStore and reports as a known finding; the byte scanner is proved sound and complete for its encodings. Tied to the code by the syntactic extractor and by a byte scan (raw, hex, base64 variants, python extras) of everything real in-process daemons emit over a scripted life (DKG, beacons, all control/public/protocol/HTTP endpoints with error paths, backup, reshare, restart+sync) through recording TCP proxies, per-node debug log sinks and stat of every file under umask 0 and a umask matrix.",
+   note="Lean kernel + standard axioms. NOT proved: that the Go code is the model. The reader/sink lists are syntactic (go/ast + small type tables; flows through interfaces/reflection are invisible); the byte scan covers the sampled executions only (quick: 1 scheme, 3 nodes; thorough: 5 schemes, joiner/leaver) and the listed encodings; secrecy of signatures and encrypted deals is an assumption on the crypto oracle; POSIX mode/umask semantics and bbolt's open are modelled. Channels the run did not exercise are listed in evidence (distribution.channels_not_exercised).",
+   technique="Lean 4 proof (noninterference by construction, decide over regenerated facts, step model of CreateSecureFile) + go2lean secret-reader/sink/file-creator extraction + byte scan of real multi-node executions with a Lean-verified scanner as second oracle"),
  "C18": dict(engine="store", design="§3 C18",
    text="Lean theorems: for every sequence of put/del the untrimmed bolt model keeps a strictly sorted key list whose entries carry their own round and Get answers exactly as a plain round->beacon map (refinement by induction over the op list); Last is the maximum; a cursor over a snapshot enumerates exactly the snapshot in strictly ascending order, Seek lands on the least round >= the argument and on the round itself when stored, every cursor read is an entry of the snapshot; trimmed store reads are labelled with the key found and the reconstructed previous signature is the stored signature of round-1 or the read fails; the memdb model stays sorted and within capacity for every op sequence, keeps an existing round, forgets only the smallest rounds, and its positional cursor only returns stored elements. Tied to the code by running the real boltdb (trimmed/untrimmed, with/without previous-required) and memdb stores against the model's executable definitions and against an independent sorted-map oracle.",
    note="Lean kernel + standard axioms; bbolt's snapshot/ordering semantics are modelled, not verified; PostgreSQL back-end not modelled; harness.",
